@@ -24,13 +24,28 @@ def family():
     return fam + [t for t in EXTRA if t not in fam]
 
 
-def export_legacy(fam, loc, k):
+# -O codesize: the copy heuristics move by 45 (calldata 54 / 62, data 74 / 82)
+EXTRA_CS = [("bytes", 576), ("bytes", 577), ("bytes", 768), ("bytes", 800), ("darr", ("uint", 256), 20),
+            ("darr", ("uint", 256), 21), ("darr", ("uint", 256), 27), ("darr", ("uint", 256), 28)]
+
+
+def family_cs():
+    fam = family()
+    return fam[::2] + [t for t in EXTRA_CS if t not in fam]
+
+
+def codesize_settings():
+    from vyper.compiler.settings import OptimizationLevel, Settings, anchor_settings
+    return anchor_settings(Settings(evm_version="cancun", optimize=OptimizationLevel.CODESIZE))
+
+
+def export_legacy(fam, loc, k, codesize=False):
     from vyper.codegen.core import get_element_ptr, make_setter, reset_names
     from vyper.codegen.ir_node import Encoding, IRnode
     from vyper.evm.address_space import CALLDATA, DATA, MEMORY
     space, base = (CALLDATA, 4) if loc == "cd" else (DATA, 0)
     out = []
-    with TP.legacy_settings():
+    with (codesize_settings() if codesize else TP.legacy_settings()):
         for t in fam:
             reset_names()
             tt = ("tuple", (("uint", 256),) * k + (t,))
@@ -81,6 +96,9 @@ def tables(pipe):
         for k in POS:
             ex = export_legacy if pipe == "l" else export_venom
             tabs.append((f"obs_cd_{pipe}_{loc}{k}", ex(fam_for(loc, k), loc, k)))
+    if pipe == "l":
+        tabs.append(("obs_cd_l_cs_cd0", export_legacy(family_cs(), "cd", 0, codesize=True)))
+        tabs.append(("obs_cd_l_cs_code1", export_legacy(family_cs(), "code", 1, codesize=True)))
     return tabs
 
 
@@ -105,14 +123,22 @@ def coq_gen_call(p, loc, k):
     return f"tpl_cd_{p} {'LCd' if loc == 'cd' else 'LCode'} {k}"
 
 
+CS_TABLES = [("obs_cd_l_cs_cd0", "tpl_cd_l_opt LCd true 0"), ("obs_cd_l_cs_code1", "tpl_cd_l_opt LCode true 1")]
+
+
 def differing_shapes():
     """Search step after a broken tie: which shapes' observed templates differ from the Coq generators"""
     from . import coqrun
     imp = "From Verif Require Import C06.Abi C06.Sexp C05.TplDecC C05.GenTplDecCL C05.GenTplDecCV.\n"
     ex = [f"map (fun p => if sx_eqb ({coq_gen_call(p, loc, k)} (fst p)) (snd p) then 1 else 0) {name}"
           for name, p, loc, k in TABLES]
+    ex += [f"map (fun p => if sx_eqb ({g} (fst p)) (snd p) then 1 else 0) {name}" for name, g in CS_TABLES]
     outs = coqrun.eval_zlists(imp, ex, "c05cdtie", shard=1)
     res = {}
+    for (name, _), o in zip(CS_TABLES, outs[len(TABLES):]):
+        bad = [A.eth_ty(t) for t, ok in zip(family_cs(), o) if not ok]
+        if bad:
+            res[name] = bad
     for (name, p, loc, k), o in zip(TABLES, outs):
         bad = [A.eth_ty(t) for t, ok in zip(fam_for(loc, k), o) if not ok]
         if bad:
